@@ -175,7 +175,7 @@ def run_coq_cases(pid, name, header, bodies, timeout=900, shard=None):
     header: Coq text (imports, helper definitions).
     bodies: list of Coq texts, one per shard, each ending with Eval commands.
     Returns list of (rc, values, raw_output) per shard."""
-    d = os.path.join(WORK, pid)
+    d = os.path.join(WORK, pid + os.environ.get('PG_REPLAY_TAG', ''))      # tag: evaluations of seeded changes run side by side
     os.makedirs(d, exist_ok=True)
     paths = []
     for i, b in enumerate(bodies):
@@ -284,6 +284,32 @@ def proof_step(pid, thorough=False):
     if thorough and not res['errors']:
         coqchk_step(pid, res)
     return res
+
+
+def beta_timescale(alpha, N):
+    """documented msprime time scale of the Beta coalescent, computed independently of the implementation
+    (40 digits): m^alpha N^(alpha-1) / (alpha B(2-alpha, alpha)), m = 1 + 1/(2^(alpha-1) (alpha-1))"""
+    import mpmath
+    mpmath.mp.dps = 40
+    a = mpmath.mpf(alpha)
+    m = 1 + 1 / (2 ** (a - 1) * (a - 1))
+    return float(m ** a * mpmath.mpf(N) ** (a - 1) / a / mpmath.beta(2 - a, a))
+
+
+def spec_sizes(spec):
+    """every population size a configuration spec mentions (pop_sizes tables; 1.0 for populations added implicitly)"""
+    out = {1.0}
+    for d in (spec.get('pop_sizes') or {}).values():
+        if isinstance(d, dict):
+            out |= {float(v) for v in d.values()}
+        else:
+            out.add(float(d))
+    for e in (spec.get('events') or []) + (spec.get('added_events') or []):
+        if 'size' in e:
+            out.add(float(e['size']))
+        for d in (e.get('pop_sizes') or {}).values():
+            out |= {float(v) for v in (d.values() if isinstance(d, dict) else [d])}
+    return sorted(out)
 
 
 # ----------------------------------------------------------------------------------------------
@@ -428,6 +454,11 @@ def write_evidence(res: Result, nviol):
         'streams': res.streams,
         'known_findings_reconfirmed': res.known,
     }
+    if pr.get('translator'):
+        cov['translator'] = pr['translator']
+    for k in ('coqchk', 'coqchk_seconds', 'coqchk_cached'):
+        if k in pr:
+            cov[k] = pr[k]
     cov.update(res.extra)
     ev = {
         'property_id': res.pid,
@@ -440,7 +471,9 @@ def write_evidence(res: Result, nviol):
         'violations': nviol,
     }
     os.makedirs(os.path.join(VERIF, 'evidence'), exist_ok=True)
-    with open(os.path.join(VERIF, 'evidence', f'{res.pid}.json'), 'w') as fh:
+    evdir = os.path.join(VERIF, 'evidence') if not os.environ.get('PG_REPLAY_TAG') else os.path.join(WORK, 'evidence_' + os.environ['PG_REPLAY_TAG'])
+    os.makedirs(evdir, exist_ok=True)
+    with open(os.path.join(evdir, f'{res.pid}.json'), 'w') as fh:
         json.dump(ev, fh, indent=1, default=str)
 
 
